@@ -9,6 +9,7 @@ use vcommon::*;
 mod c01;
 mod c15;
 mod common;
+mod concurrent;
 mod layouts;
 mod strategies;
 
@@ -29,6 +30,7 @@ fn real_main() {
         "c25" => strategies::run_c25(&args),
         "c26" => strategies::run_c26(&args),
         "c24" => strategies::run_c24(&args),
+        "c22" => concurrent::run_c22(&args),
         "noop" => {}
         other => {
             eprintln!("unknown sub-command {:?}", other);
